@@ -721,25 +721,20 @@ def _kw(rng, word, vary):
     return word.capitalize()
 
 
-_STMT_KEYWORDS = ['create object instance', 'delete object instance', 'select', 'related by', 'from instances of',
-                  'instances of', 'where', 'relate', 'unrelate', 'across', 'using', 'return', 'control stop',
-                  'break', 'continue', 'bridge', 'transform', 'many', 'any', 'one']
+_HEAD_WORDS = ('create', 'object', 'instance', 'delete', 'select', 'many', 'any', 'one', 'relate', 'unrelate',
+               'return', 'control', 'stop', 'break', 'continue', 'bridge', 'transform')
 
 
 def _respell(rng, text, vary):
-    """re-spell the leading statement keyword(s) in a random letter case (identifiers are left alone:
-    only whole leading keywords and the select cardinality are touched)"""
+    """re-spell the leading keywords of a simple statement in a random letter case (identifiers are left alone:
+    only the run of bare keywords at the head of the statement is touched)"""
     if not vary or rng.random() < 0.6:
         return text
     words = text.split(' ')
     up = rng.random() < 0.5
     out = []
     for i, w in enumerate(words):
-        lw = w.lower()
-        # stop at the first token that is not a bare keyword of the statement head
-        if lw in ('create', 'object', 'instance', 'delete', 'select', 'many', 'any', 'one', 'relate', 'unrelate',
-                  'return', 'control', 'stop', 'break', 'continue', 'bridge', 'transform') and w == lw \
-                and all(x == x.lower() for x in out[:0]):
+        if w in _HEAD_WORDS:
             out.append(w.upper() if up else w.capitalize())
         else:
             out.extend(words[i:])
@@ -821,3 +816,121 @@ def count_statements(prog):
         elif st[0] == 'for':
             n += count_statements(st[3])
     return n
+
+
+# --------------------------------------------------------------------------- running the implementation
+
+class Rig(object):
+    """Everything a case needs from the workspace copy of the repository (created once per process, in `setup`):
+    the ooaofooa loader (schema parsed once), one OAL parser, one PLY lexer for tokenising generated text."""
+
+    def __init__(self):
+        import xtuml
+        from bridgepoint import ooaofooa, prebuild, sourcegen, oal
+        from xtuml import consistency_check
+        from ply import lex
+        self.xtuml = xtuml
+        self.prebuild = prebuild
+        self.sourcegen = sourcegen
+        self.oal = oal
+        self.cc = consistency_check
+        self.loader = ooaofooa.Loader()
+        self.parser = oal.OALParser()
+        self.lexer = lex.lex(module=oal.OALParser())
+        self.keywords = set(oal.OALParser.keywords)
+
+    def fresh(self):
+        m = self.loader.build_metamodel()
+        homes = build_base(m, self.xtuml)
+        return m, homes
+
+    def parse(self, text):
+        """the real parser (one parser object re-used; `oal.parse` builds a new one per call from the same tables)"""
+        return self.parser.text_input(text + '\n')
+
+    def translate(self, home, text, via_model=False):
+        """fresh base model, body text placed in the home, prebuild, regenerate: (metamodel, home instance, text)"""
+        m, homes = self.fresh()
+        h = homes[home]
+        h.Action_Semantics_internal = text
+        h.Suc_Pars = 1
+        if via_model:
+            self.prebuild.prebuild_model(m)
+        else:
+            self.prebuild.prebuild_action(h)
+        return m, h, self.sourcegen.gen_text_action(h)
+
+    def tokens(self, text):
+        """[(PLY token type, value)] of a text, by the real lexer"""
+        lx = self.lexer.clone()
+        lx.lineno = 1
+        lx.input(text + '\n')
+        out = []
+        while True:
+            t = lx.token()
+            if t is None:
+                break
+            out.append([t.type, t.value])
+        return out
+
+
+# --------------------------------------------------------------------------- canon, independently in Python
+
+_CALLS = ('ImplicitInvocationNode', 'BridgeInvocationNode', 'ClassInvocationNode', 'PortInvocationNode')
+
+
+def canon_py(x, ees, classes):
+    """the C05 normal form on the generic s-expression encoding of a tree (harness/oal_sexp.py):
+    operator keywords, boolean literals and select cardinalities lower-cased; a bare NS::f(...) classified as
+    bridge (NS is an external entity) / class operation (NS is a class) / port message (neither)."""
+    from sexp import Sym
+    if not isinstance(x, list) or not x or not isinstance(x[0], Sym):
+        return x
+    head = str(x[0])
+    rest = [canon_py(e, ees, classes) for e in x[1:]]
+    if head == 'UnaryOperationNode':
+        rest[0] = rest[0].lower()
+    elif head == 'BinaryOperationNode':
+        rest[1] = rest[1].lower()
+    elif head == 'BooleanNode':
+        rest[0] = rest[0].lower()
+    elif head in ('SelectFromNode', 'SelectFromWhereNode', 'SelectRelatedNode', 'SelectRelatedWhereNode'):
+        rest[0] = rest[0].lower()
+    elif head == 'ImplicitInvocationNode':
+        ns = rest[0]
+        head = 'BridgeInvocationNode' if ns in ees else ('ClassInvocationNode' if ns in classes
+                                                         else 'PortInvocationNode')
+    return [Sym(head)] + rest
+
+
+def first_difference(a, b, path='tree'):
+    """None if the two encoded trees are equal in every field and every length, else a description"""
+    if isinstance(a, list) and isinstance(b, list):
+        if len(a) != len(b):
+            return '%s: %d vs %d elements (%s | %s)' % (path, len(a), len(b), _brief(a), _brief(b))
+        for i, (x, y) in enumerate(zip(a, b)):
+            head = str(a[0]) if a and not isinstance(a[0], list) else ''
+            d = first_difference(x, y, '%s/%s[%d]' % (path, head, i))
+            if d:
+                return d
+        return None
+    if type(a) is not type(b) or a != b:
+        return '%s: %r vs %r' % (path, _brief(a), _brief(b))
+    return None
+
+
+def _brief(x):
+    from sexp import dumps
+    try:
+        s = dumps(x)
+    except Exception:
+        s = repr(x)
+    return s if len(s) < 160 else s[:157] + '...'
+
+
+def ee_names():
+    return [kl for kl, _, _ in SPEC['ees']]
+
+
+def class_names():
+    return [c['kl'] for c in SPEC['classes']]
